@@ -1,3 +1,9 @@
+//! STATUS: REPAIRED in /repo by commit "fix: long tokens of JSON fields were silently truncated in the term hashmap key"
+//! (`PostingsWriter::index_text` now also drops a token when `term_prefix_len + token.text.len() > u16::MAX`; unit
+//! `postings_index_text` proves `subscribe`'s precondition `term bytes <= u16::MAX` for every header length since then).  This
+//! demo (which accepts "both tokens distinct terms" or "both tokens dropped") passes on the repaired tree and fails on the tree
+//! before that commit (`left: (1, 0, 0)`: one merged, truncated term; neither document found).  The text below describes the
+//! tree BEFORE the repair.
 //! Native demonstration of the precondition that units `postings_index_text` / `postings_subscribe` expose
 //! (`term bytes <= u16::MAX`, i.e. `header + MAX_TOKEN_LEN <= u16::MAX`): `PostingsWriter::index_text` keeps every token of
 //! at most MAX_TOKEN_LEN = u16::MAX - 5 = 65530 bytes and subscribes it under the key `term buffer header ++ token text`, but
